@@ -11,10 +11,10 @@ def correspond(ctx):
     ctx.extra["rule"] = ("random multigraphs n<=5 and grids, group_size absent / constant / IntVar / per-vertex list with None holes, border "
                          "flags as variables/negations/constants, both routes; program emitted by the real "
                          "division_connected_variable_groups(_with_borders) and the returned ids vs the Lean model")
-    graphcorr.run_cases(ctx, graphcorr.case_vgroups, ctx.n(300, 4000), "vgroups", with_ids=True)
-    graphcorr.run_cases(ctx, graphcorr.case_vgborders, ctx.n(300, 4000), "vgborders")
-    graphcorr.run_cases(ctx, graphcorr.case_vgborders_frame, ctx.n(80, 800), "vgborders_frame")
-    graphcorr.run_cases(ctx, graphcorr.case_vgroups_shape, ctx.n(80, 800), "vgroups_shape", with_ids=True)
+    graphcorr.run_cases(ctx, graphcorr.case_vgroups, ctx.n(300, 4000), "vgroups", with_ids=True, bigs=graphcorr.graph_bigs() + graphcorr.grid_bigs())
+    graphcorr.run_cases(ctx, graphcorr.case_vgborders, ctx.n(300, 4000), "vgborders", bigs=graphcorr.graph_bigs())
+    graphcorr.run_cases(ctx, graphcorr.case_vgborders_frame, ctx.n(80, 800), "vgborders_frame", bigs=graphcorr.grid_bigs())
+    graphcorr.run_cases(ctx, graphcorr.case_vgroups_shape, ctx.n(80, 800), "vgroups_shape", with_ids=True, bigs=graphcorr.grid_bigs())
     if not ctx.quick():
         for f in search(ctx, None, budget=24):
             ctx.disagree("semantic", what=f.what, data=f.data)
@@ -134,9 +134,241 @@ def _check_borders_frame(H, W):
     return None
 
 
+# ---------------------------------------------------------------- sizes given as VARIABLES with their own declared domains
+#
+# The size of a block may be specified by an IntVar; what the variable's DECLARED domain is must not matter beyond restricting its
+# values.  Domains here are narrow and differ from vertex to vertex (singletons k..k, a..a+1, ...), built around a partition that is
+# realisable, so that neighbouring domains overlap in exactly one value, in several, or not at all.  The sizes are fixed through the
+# variables' VALUES (`fixed`), never through the declarations.
+
+
+def domain_families(rng, n, edges, count):
+    """[[(lo, hi)] * n]: deterministic corner families first (all singletons of the sizes of a realisable partition; domains that
+    meet their neighbours' in exactly one value), then random narrow domains around random realisable partitions."""
+    out = []
+    m = len(edges)
+    cuts = [[False] * m, [True] * m] + [[(k % 2 == par) for k in range(m)] for par in (0, 1)]
+    while len(cuts) < count + 2:
+        cuts.append([rng.random() < 0.5 for _ in range(m)])
+    for idx, cut in enumerate(cuts):
+        comp = exprio.components(n, [e for k, e in enumerate(edges) if not cut[k]])
+        size = [sum(1 for w in range(n) if comp[w] == comp[v]) for v in range(n)]
+        if idx < 4:
+            out.append([(size[v], size[v]) for v in range(n)])                                   # singletons k..k
+            out.append([(max(1, size[v] - 1), size[v]) if v % 2 else (size[v], size[v] + 1) for v in range(n)])   # a..k next to k..b
+        else:
+            out.append([(max(1, size[v] - rng.choice([0, 0, 1])), size[v] + rng.choice([0, 0, 1, 2])) for v in range(n)])
+    seen, uniq = set(), []
+    for d in out:
+        if tuple(d) not in seen:
+            seen.add(tuple(d))
+            uniq.append(d)
+    return uniq[:count]
+
+
+def _check_groups_vars(n, edges, doms, form, grid=None):
+    """division_connected_variable_groups with per-vertex size VARIABLES declared with the domains `doms`.
+    form: 'list' | 'array1d' (graph=...), 'shape' (shape=(h, w), 2-D list), 'array2d' (IntArray2D, shape inferred).
+    Every set partition whose block sizes lie in the declared domains must be realisable exactly when its blocks are connected
+    (sizes fixed to the block sizes through the variables' values); with one size moved to another value of its domain: never."""
+    from cspuz import graph as G
+    from cspuz.array import IntArray1D, IntArray2D
+    import z3
+    mk = graphs.mk_graph(n, edges) if grid is None else None
+    st = {}
+
+    def builder(s):
+        vs = [s.int_var(lo, hi) for lo, hi in doms]
+
+        def call():
+            if form == "list":
+                r = G.division_connected_variable_groups(s, graph=mk, group_size=list(vs))
+            elif form == "array1d":
+                r = G.division_connected_variable_groups(s, graph=mk, group_size=IntArray1D(vs))
+            elif form == "shape":
+                r = G.division_connected_variable_groups(s, shape=grid, group_size=[vs[y * grid[1]:(y + 1) * grid[1]] for y in range(grid[0])])
+            else:
+                r = G.division_connected_variable_groups(s, group_size=IntArray2D(vs, grid))
+            st["ids"] = [exprio.pexpr(x) for x in r.data]
+        return call
+    decls, cs, base, _ = graphs.real_program(builder)
+    for blk in set_partitions(n):
+        size = [sum(1 for w in range(n) if blk[w] == blk[v]) for v in range(n)]
+        if not all(doms[v][0] <= size[v] <= doms[v][1] for v in range(n)):
+            continue
+
+        def extra(var, blk=blk):
+            conds = []
+            for u in range(n):
+                for v in range(u + 1, n):
+                    a, b = var[st["ids"][u]], var[st["ids"][v]]
+                    conds.append(a == b if blk[u] == blk[v] else a != b)
+            return z3.And(conds) if conds else z3.BoolVal(True)
+        variants = [list(size)]
+        for v in range(n):
+            other = [x for x in range(doms[v][0], doms[v][1] + 1) if x != size[v]]
+            if other:
+                sz = list(size)
+                sz[v] = other[0]
+                variants.append(sz)
+                break
+        for sz in variants:
+            got = exprio.z3_solve(decls, cs, base, {f"i{v}": sz[v] for v in range(n)}, extra=extra) is not None
+            want = part_ok(n, edges, blk, sz)
+            if got != want:
+                return blk, sz, got, want
+    return None
+
+
+def _check_borders_vars(n, edges, doms, prim=False, frame=None):
+    """..._with_borders with per-vertex size VARIABLES declared with the domains `doms` (graph form; or, with frame=(H, W), the
+    IntArray2D / BoolInnerGridFrame form -- `edges` must then be the cell graph in the inner frame's variable order).  For every
+    border pattern whose block sizes lie in the declared domains: satisfiable exactly when no border lies inside a block; with
+    one size moved to another value of its domain: never."""
+    from cspuz import graph as G
+    from cspuz.array import IntArray2D
+    from cspuz.grid_frame import BoolInnerGridFrame
+    m = len(edges)
+    mk = graphs.mk_graph(n, edges) if frame is None else None
+
+    def builder(s):
+        vs = [s.int_var(lo, hi) for lo, hi in doms]
+        if frame:
+            fr = BoolInnerGridFrame(s, frame[0], frame[1])
+            return lambda: G.division_connected_variable_groups_with_borders(s, group_size=IntArray2D(vs, frame), is_border=fr, use_graph_primitive=prim)
+        bs = [s.bool_var() for _ in range(m)]
+        return lambda: G.division_connected_variable_groups_with_borders(s, group_size=list(vs), is_border=bs, graph=mk, use_graph_primitive=prim)
+    decls, cs, base, _ = graphs.real_program(builder)
+    for bd in graphs.all_patterns(m):
+        comp = cut_blocks(n, edges, bd)
+        size = [sum(1 for w in range(n) if comp[w] == comp[v]) for v in range(n)]
+        if not all(doms[v][0] <= size[v] <= doms[v][1] for v in range(n)):
+            continue
+        ok_borders = all(not (bd[k] and comp[u] == comp[v]) for k, (u, v) in enumerate(edges))
+        variants = [list(size)]
+        for v in range(n):
+            other = [x for x in range(doms[v][0], doms[v][1] + 1) if x != size[v]]
+            if other:
+                sz = list(size)
+                sz[v] = other[-1]
+                variants.append(sz)
+                break
+        for sz in variants:
+            fixed = {f"i{v}": sz[v] for v in range(n)}
+            fixed.update({f"b{n + k}": bd[k] for k in range(m)})
+            got = exprio.solve_prog(decls, cs, base, fixed) is not None
+            want = ok_borders and sz == size
+            if got != want:
+                return list(bd), sz, got, want
+    return None
+
+
+def inner_frame_edges(H, W):
+    """cell graph of an H x W board in the variable order of BoolInnerGridFrame (see _check_borders_frame)"""
+    cell_edges = [((y, x), (y + 1, x)) for y in range(H - 1) for x in range(W)] + [((y, x), (y, x + 1)) for y in range(H) for x in range(W - 1)]
+    return [(a[0] * W + a[1], b[0] * W + b[1]) for a, b in cell_edges]
+
+
+def _check_big_borders(n, edges, variant):
+    """A medium / LARGE graph through ..._with_borders (aux route), sizes as variables with narrow domains around the block sizes:
+    the blocks left by cutting every edge with index = variant mod 5 (plus all edges between the two halves of the index range);
+    then the same with one more border INSIDE a block, and with one size off by one."""
+    from cspuz import graph as G
+    m = len(edges)
+    cut = [(k % 5 == variant % 5) or ((u < n // 2) != (v < n // 2)) for k, (u, v) in enumerate(edges)]
+    comp = cut_blocks(n, edges, [bool(c) for c in cut])
+    size = [sum(1 for w in range(n) if comp[w] == comp[v]) for v in range(n)]
+    bd = [comp[u] != comp[v] for u, v in edges]
+    doms = [((max(1, size[v] - 1), size[v]) if (v + variant) % 3 == 0 else ((size[v], size[v] + 1) if (v + variant) % 3 == 1 else (size[v], size[v])))
+            for v in range(n)]
+    mk = graphs.mk_graph(n, edges)
+
+    def builder(s):
+        vs = [s.int_var(lo, hi) for lo, hi in doms]
+        bs = [s.bool_var() for _ in range(m)]
+        return lambda: G.division_connected_variable_groups_with_borders(s, group_size=list(vs), is_border=bs, graph=mk, use_graph_primitive=False)
+    decls, cs, base, _ = graphs.real_program(builder)
+    cases = [("blocks", bd, size)]
+    inside = [k for k in range(m) if not bd[k]]
+    if inside:
+        bd2 = list(bd)
+        bd2[inside[-1]] = True            # a border whose two sides are (or are not) still connected: the oracle decides
+        cases.append(("one more border", bd2, size))
+    v = max(range(n), key=lambda v: (doms[v][1] - doms[v][0], v))
+    if doms[v][0] != doms[v][1]:
+        sz = list(size)
+        sz[v] = doms[v][0] if doms[v][0] != size[v] else doms[v][1]
+        cases.append(("size of vertex %d off" % v, bd, sz))
+    for name, b, sz in cases:
+        c2 = cut_blocks(n, edges, b)
+        want = all(not (b[k] and c2[u] == c2[w]) for k, (u, w) in enumerate(edges)) and \
+            all(sum(1 for w in range(n) if c2[w] == c2[x]) == sz[x] for x in range(n))
+        fixed = {f"i{x}": sz[x] for x in range(n)}
+        fixed.update({f"b{n + k}": b[k] for k in range(m)})
+        try:
+            got = exprio.solve_prog(decls, cs, base, fixed, timeout_ms=8000) is not None
+        except exprio.Unknown:
+            continue
+        if got != want:
+            return name, [edges[k] for k in range(m) if b[k]], sz, doms, got, want
+    return None
+
+
 def search(ctx, why, budget=None):
     rng = ctx.rng
     found = {}
+    # sizes as variables with narrow declared domains: graph form, shape form, IntArray2D form, borders, borders on a frame
+    small = [(n, es) for n, es in [(4, [(0, 1), (1, 2), (2, 3)])] + graphs.reversed_specials() + graphs.small_graphs(rng, budget or ctx.n(14, 30), 4)
+             if 2 <= n <= 4 and 1 <= len(es) <= 5 and all(a != b for a, b in es)]
+    jobs = []
+    for idx, (n, edges) in enumerate(small):
+        for d, doms in enumerate(domain_families(rng, n, edges, 5 if idx < 6 else 3)):
+            jobs.append(("groups:domains", n, edges, doms, ("list", "array1d")[(idx + d) % 2], None))
+            jobs.append(("borders:domains", n, edges, doms, None, None))
+    for (H, W) in ((1, 3), (2, 2), (3, 1), (1, 4), (2, 3)):
+        n, edges = H * W, inner_frame_edges(H, W)
+        for d, doms in enumerate(domain_families(rng, n, edges, 4)):
+            if n <= 4:
+                jobs.append(("groups:domains:grid", n, graphs.grid_edges(H, W), doms, ("shape", "array2d")[d % 2], (H, W)))
+            jobs.append(("borders:frame:domains", n, edges, doms, None, (H, W)))
+    for key, n, edges, doms, form, grid in jobs:
+        if key in found:
+            continue
+        try:
+            if key.startswith("groups"):
+                bad = _check_groups_vars(n, edges, doms, form, grid)
+            else:
+                bad = _check_borders_vars(n, edges, doms, False, grid)
+        except Exception as e:
+            bad = ("exception", None, core.err_name(e), str(e)[:200])
+        ctx.count("search:" + key)
+        if bad:
+            where = (f"on a {grid[0]}x{grid[1]} board ({'shape=, 2-D list' if form == 'shape' else 'IntArray2D' if form == 'array2d' else 'IntArray2D sizes, BoolInnerGridFrame borders'})"
+                     if grid else f"n={n} edges={edges} ({form or 'list'} form)" + graphs.history_note(n, edges))
+            if key.startswith("groups"):
+                what = (f"division_connected_variable_groups {where}, group_size = one IntVar per vertex with declared domains {doms}, sizes fixed to "
+                        f"{bad[1]}, partition (block ids) {bad[0]}: realisable={bad[2]} expected {bad[3]}")
+            else:
+                what = (f"division_connected_variable_groups_with_borders {where}, group_size = one IntVar per vertex with declared domains {doms}, "
+                        f"sizes fixed to {bad[1]}, is_border={bad[0]}: satisfiable={bad[2]} expected {bad[3]}")
+            found[key] = Finding(key, what, {"fn": "domains", "key": key, "n": n, "edges": edges, "doms": doms, "form": form,
+                                              "grid": list(grid) if grid else None})
+    # medium / LARGE graphs through the borders form
+    for idx, (n, edges) in enumerate(graphs.big_graphs()):
+        if "borders:big" in found:
+            break
+        try:
+            bad = _check_big_borders(n, edges, idx)
+        except Exception as e:
+            bad = ("exception", None, None, None, core.err_name(e), str(e)[:200])
+        ctx.count("search:borders:big")
+        if bad:
+            found["borders:big"] = Finding(
+                "borders:large-graph",
+                f"division_connected_variable_groups_with_borders on a graph with {n} vertices and {len(edges)} edges (edges {edges[:4]} ... {edges[-6:]}), "
+                f"sizes as IntVars with narrow declared domains around the block sizes, case '{bad[0]}', {len(bad[1] or [])} borders: satisfiable={bad[4]} expected {bad[5]}"
+                + graphs.history_note(n, edges),
+                {"fn": "bigborders", "n": n, "edges": edges, "variant": idx, "case": bad[0]})
     for (H, W) in ((1, 1), (1, 2), (2, 1), (1, 3), (3, 1), (2, 2), (2, 3)):
         if "borders:frame" in found:
             break
@@ -165,7 +397,7 @@ def search(ctx, why, budget=None):
                 ctx.count("search:" + key)
                 if bad:
                     found[key] = Finding(key, f"division_connected_variable_groups n={n} edges={edges} group_size({kind})={sizes} partition={bad[0]}: "
-                                              f"realisable={bad[1]} expected {bad[2]}", {"n": n, "edges": edges, "kind": kind, "sizes": sizes, "partition": bad[0], "fn": "groups"})
+                                              f"realisable={bad[1]} expected {bad[2]}" + graphs.history_note(n, edges), {"n": n, "edges": edges, "kind": kind, "sizes": sizes, "partition": bad[0], "fn": "groups"})
         for prim in (False, True):
             sizes = [rng.choice([None, rng.randint(1, n)]) for _ in range(n)]
             for sz in (sizes, [None] * n):
@@ -179,12 +411,24 @@ def search(ctx, why, budget=None):
                 ctx.count("search:" + key)
                 if bad:
                     found[key] = Finding(key, f"division_connected_variable_groups_with_borders(prim={prim}) n={n} edges={edges} group_size={sz} "
-                                              f"is_border={bad[0]}: satisfiable={bad[1]} expected {bad[2]}",
+                                              f"is_border={bad[0]}: satisfiable={bad[1]} expected {bad[2]}" + graphs.history_note(n, edges),
                                          {"n": n, "edges": edges, "sizes": sz, "prim": prim, "borders": bad[0], "fn": "borders"})
     return list(found.values())
 
 
 def replay(ctx, data):
+    if data.get("fn") == "domains":
+        edges = [tuple(e) for e in data["edges"]]
+        doms = [tuple(d) for d in data["doms"]]
+        grid = tuple(data["grid"]) if data.get("grid") else None
+        if data["key"].startswith("groups"):
+            bad = _check_groups_vars(data["n"], edges, doms, data["form"], grid)
+        else:
+            bad = _check_borders_vars(data["n"], edges, doms, False, grid)
+        return Finding("c07:replay", f"still fails: {bad}", data) if bad else None
+    if data.get("fn") == "bigborders":
+        bad = _check_big_borders(data["n"], [tuple(e) for e in data["edges"]], data["variant"])
+        return Finding("c07:replay", f"still fails: {str(bad)[:300]}", data) if bad else None
     if data.get("fn") == "frame":
         bad = _check_borders_frame(data["H"], data["W"])
         return Finding("c07:replay", f"still fails: {bad}", data) if bad else None
